@@ -390,6 +390,7 @@ class PathState(object):
         self.fd_cons = []
         self._seen_terms = {}
         self._fdview = {}
+        self.proved_ids = {}
 
     # -- solver interface -------------------------------------------------------------------
     def ensure_defs(self, formulas):
@@ -600,7 +601,12 @@ class PathState(object):
         ob.path = list(self.trace[: self.pos])
         self.obligations.append(ob)
         if ob.status == "discharged" and not self.guards and "z3" in (ob.backend or ""):
+            n0 = len(self.pc)
             self.assume(g)
+            # a proved goal is implied by the rest of the path condition: it is kept as a lemma for
+            # the solver but is no *decision* the path rests on
+            for z in self.pc[n0:]:
+                self.proved_ids[z.get_id()] = z
         return ob.status == "discharged"
 
     def _prove_one(self, name, g, detail, kind):
@@ -670,7 +676,7 @@ class PathState(object):
                 return  # path infeasible after all
             if r == z3.sat:
                 model = self.engine.snapshot_model(self, m)
-        if status == "refuted" and S.involves_abstract(list(self.pc) + list(self.guards)):
+        if status == "refuted" and S.involves_abstract([z for z in self.pc if z.get_id() not in self.proved_ids] + list(self.guards)):
             # the path was taken on the strength of an abstract structured-string term: it may
             # not exist, so what happens on it is undecided rather than a violation
             status = "unknown"
@@ -2243,6 +2249,10 @@ class Engine(object):
         if isinstance(l, (GList, SMap, SSeq)) or isinstance(r, (GList, SMap, SSeq)):
             if isinstance(l, SMap) and isinstance(r, SMap):
                 return mk_bool(z3.And(l.dom == r.dom, S.maps_agree(l, r)))
+            if isinstance(l, GList) and isinstance(r, GList):
+                z = self.keyed_glists_equal(l, r, st)
+                if z is not None:
+                    return mk_bool(z)
             raise Unsupported("equality of symbolic containers")
         if isinstance(l, (list, tuple, dict)) and not is_concrete(l) or isinstance(r, (list, tuple, dict)) and not is_concrete(r):
             if type(l) is type(r) and isinstance(l, (list, tuple)):
@@ -2265,6 +2275,31 @@ class Engine(object):
             S.EQ_REG[z.get_id()] = (z, l, r)
             return mk_bool(z)
         return mk_bool(eq_z3(l, r))
+
+    def keyed_glists_equal(self, l, r, st):
+        """
+        equality of two sequences with conditionally present elements, both filtered from the
+        same table: item i of either is a tuple whose first component is the concrete key k_i, the
+        k_i pairwise distinct.  Elements at different table positions are then never equal and the
+        order of the survivors is the table order in both, so the sequences are equal iff they
+        keep the same positions and agree on the kept elements.  None when the shape differs.
+        """
+        if type(l) is not type(r) or len(l.items) != len(r.items):
+            return None
+        keys = []
+        for (_, a), (_, b) in zip(l.items, r.items):
+            if not (isinstance(a, tuple) and isinstance(b, tuple) and len(a) == len(b) and len(a) >= 1
+                    and isinstance(a[0], str) and a[0] == b[0]):
+                return None
+            keys.append(a[0])
+        if len(set(keys)) != len(keys):
+            return None
+        conj = []
+        for (g, a), (h, b) in zip(l.items, r.items):
+            conj.append(g == h)
+            parts = [self.cond_z(self.equals(x, y, st), st) for x, y in zip(a[1:], b[1:])]
+            conj.append(z3.Implies(g, _and([z3.BoolVal(p) if isinstance(p, bool) else p for p in parts])))
+        return z3.simplify(_and(conj))
 
     def contains(self, container, item, st):
         if isinstance(container, SMap):
@@ -2384,9 +2419,40 @@ class Engine(object):
                 return leaf()
             gen = node.generators[gi]
             it = self.eval(gen.iter, sub, st)
-            for x in self.iterate(it, st):
-                self.assign(gen.target, x, sub, st)
-                conds(gen, gi, 0)
+            pairs = None
+            if guarded_ok and isinstance(it, GList) and any(not z3.is_true(g) for g, _ in it.items):
+                # a source with conditionally present elements: each element of the result is
+                # present under the guard of its source element (and its own `if` clauses)
+                try:
+                    pairs = [(True, x) for x in self.compact_glist(it, st)]
+                except Unsupported:
+                    pairs = [(True if z3.is_true(g) else g, x) for g, x in it.items]
+            if pairs is None:
+                pairs = [(True, x) for x in self.iterate(it, st)]
+            for g, x in pairs:
+                if g is True:
+                    self.assign(gen.target, x, sub, st)
+                    conds(gen, gi, 0)
+                    continue
+                n = len(out)
+                active.append(g)
+                forked = False
+                try:
+                    def body(x=x):
+                        self.assign(gen.target, x, sub, st)
+                        conds(gen, gi, 0)
+
+                    self.guarded(g, body, st)
+                except NeedFork:
+                    del out[n:]
+                    if st.guards:
+                        raise
+                    forked = True
+                finally:
+                    active.pop()
+                if forked and st.decide(g, "element present?"):
+                    self.assign(gen.target, x, sub, st)
+                    conds(gen, gi, 0)
 
         rec(0)
         if all(z3.is_true(g) for g, _ in out):
